@@ -55,7 +55,7 @@ def main():
             shutil.rmtree(wt, ignore_errors=True)
     # now against the checks
     iso = "--iso" in sys.argv
-    caught = {}
+    caught = dict(meta.get("checks", {})) if meta_only else {}
     if iso:
         # isolated: a scratch worktree with the patch + a scratch copy of the harness built against it (several seeds can be
         # evaluated at the same time and /repo stays untouched); the checks read VERIF_REPO_DIR / VERIF_HARNESS_DIR
